@@ -333,6 +333,21 @@ def evaluate(case):
                 if gref.shape != rg[:, 1].shape or np.abs(gref - rg[:, 1])[okf].max(initial=0.0) > 1e-7 * scg:
                     fails.append(f"{stem}.gr is not Transformer.S_to_{X} of the merged S(Q) written to {stem}.sq with the configured settings "
                                  f"(max difference {np.abs(gref - rg[:, 1])[okf].max(initial=0.0):.3g}; {len(qs)} merged points up to Q={qs[:, 0].max():.2f})")
+                # ... and the filtered curve is what FourierFilter gives on the written curves with the configured cutoff and switches
+                cut = kw.get("FourierFilter", {}).get("Cutoff")
+                if cut is not None and stem + "_ft.gr" in s1 and not fails:
+                    from pystog import FourierFilter as _FF
+                    fg = np.loadtxt(io.BytesIO(s1[stem + "_ft.gr"]), skiprows=2, ndmin=2)
+                    fkw = {"rho": tkw["rho"], "<b_coh>^2": tkw["<b_coh>^2"], "lorch": False,
+                           "OmittedXrangeCorrection": bool(kw.get("OmittedXrangeCorrection", False))}
+                    with np.errstate(all="ignore"):
+                        fo = getattr(_FF(), f"{X}_using_S")(rg[:, 0], rg[:, 1], qs[:, 0], qs[:, 1], cut, **fkw)
+                    gfil = np.asarray(fo[5], dtype=float)
+                    okg = np.isfinite(gfil) & np.isfinite(fg[:, 1])
+                    scf = max(1.0, float(np.abs(gfil[okg]).max(initial=0.0)))
+                    if gfil.shape != fg[:, 1].shape or np.abs(gfil - fg[:, 1])[okg].max(initial=0.0) > 1e-6 * scf:
+                        fails.append(f"{stem}_ft.gr is not FourierFilter.{X}_using_S of the written curves with Cutoff={cut!r} and "
+                                     f"OmittedXrangeCorrection={fkw['OmittedXrangeCorrection']} (max difference {np.abs(gfil - fg[:, 1])[okg].max(initial=0.0):.3g})")
             except Exception as ex:  # noqa: BLE001
                 fails.append(f"could not compare {stem}.gr with the transform of {stem}.sq: {type(ex).__name__}: {str(ex)[:80]}")
         if e3 is None and e1 is not None:
